@@ -58,7 +58,7 @@ type c11Case struct {
 
 func c11Menu() []tokSlot {
 	m := []tokSlot{{Kind: "auto"}, {Kind: "tagged"}, {Kind: "preconly"}, {Kind: "twice", Num: 300}, {Kind: "twice", Num: 4}, {Kind: "precthennum", Num: 5}}
-	for _, n := range []int{1, 2, 3, 43, 97, 257, 1000, -1, -5} {
+	for _, n := range []int{1, 2, 3, 43, 97, 257, 1000, -1, -5, 4294968296} { // the last one does not fit in 32 bits
 		m = append(m, tokSlot{Kind: "num", Num: n})
 	}
 	for _, n := range []int{10, 64, -10} {
@@ -308,6 +308,23 @@ func c11Work(w *Worker) {
 			}
 		}
 	}
+	// the compiled runs ask translate() for every integer from -9 to the largest code + 2: mixes with the
+	// token number beyond 32 bits are judged in-process only
+	{
+		var small []*c11Case
+		for _, c := range compile {
+			big := false
+			for _, sl := range c.Slots {
+				if sl.Num > 1<<31 {
+					big = true
+				}
+			}
+			if !big {
+				small = append(small, c)
+			}
+		}
+		compile = small
+	}
 	for lo := 0; lo < len(compile); lo += 100 {
 		hi := lo + 100
 		if hi > len(compile) {
@@ -359,14 +376,14 @@ func c11Eval(w *Worker, c *c11Case, withCompile bool) bool {
 			if strings.HasPrefix(name, "$operator") {
 				name = "'" + name[len("$operator"):] + "'"
 			}
-			codes[name] = sy.Value
-			if other, dup := seen[sy.Value]; dup {
-				bad("duplicate-code", fmt.Sprintf("tokens %s and %s both have code %d", other, name, sy.Value))
+			codes[name] = int(sy.Value)
+			if other, dup := seen[int(sy.Value)]; dup {
+				bad("duplicate-code", fmt.Sprintf("tokens %s and %s both have code %d", other, name, int(sy.Value)))
 				return false
 			}
-			seen[sy.Value] = name
-			if sy.Value == -1 || sy.Value == 0 {
-				bad("reserved-code", fmt.Sprintf("token %s has code %d", name, sy.Value))
+			seen[int(sy.Value)] = name
+			if int(sy.Value) == -1 || int(sy.Value) == 0 {
+				bad("reserved-code", fmt.Sprintf("token %s has code %d", name, int(sy.Value)))
 				return false
 			}
 		}
@@ -450,12 +467,12 @@ func c11Compile(w *Worker, cases []*c11Case, name string) {
 		}
 		for _, sy := range res.V.G.Symbols {
 			if !sy.IsNonTerminator {
-				e.symID[sy.Value] = int(sy.ID)
-				if sy.Value > e.max {
-					e.max = sy.Value
+				e.symID[int(sy.Value)] = int(sy.ID)
+				if int(sy.Value) > e.max {
+					e.max = int(sy.Value)
 				}
 				if sy.Name != "$" && !strings.HasPrefix(sy.Name, "$operator") {
-					e.codes[sy.Name] = sy.Value
+					e.codes[sy.Name] = int(sy.Value)
 				}
 			}
 		}
